@@ -15,11 +15,13 @@ How the hull claim is turned into decidable obligations (all through the public 
                (b) evaluate_single == sum_i lambda_i * (those returned points)       [identity]
                (c) sum_i lambda_i == 1                                               [identity]
                (d) lambda_i >= 0 for every i                                         [order obligation, z3/nlsat]
-             (b)-(d) are the definition of "lies in the convex hull of the active control points".  (d) is attempted
-             for total degree <= `sign_deg` of the family (curves p <= 3 non-rational, p <= 2 rational; surfaces and
-             volumes per-direction factors, each factor separately, since a product of non-negative factors is
-             non-negative); above that only (a)-(c) are claimed.  Volumes have no find_ctrlpts (the function rejects
-             them: checked), their active set is the spec's.
+             (b)-(d) are the definition of "lies in the convex hull of the active control points".  (d) is given to the
+             solver (nlsat, division-free form) for the instances with signs=True: all quick shapes, i.e. curves of
+             degree <= 3, non-rational and rational (for rational curves the factors B_i >= 0, w_i > 0 and the quotient
+             itself); surfaces and volumes: the univariate factors Bu_k, Bv_l, Bw_m of lambda (a product of
+             non-negative factors divided by the positive weight function is non-negative).  signs=False (thorough
+             tier, degree 5 / rational cubic with two interior knots): only (a)-(c) are claimed.  Volumes have no
+             find_ctrlpts (the function rejects them: checked), their active set is the spec's.
   ends       clamped shapes evaluated at the domain ends / corners give the first / last (corner) control points, also
              with unnormalised symbolic end knots and for rational shapes.
   bbox_contract   utilities.evaluate_bounding_box on fully symbolic points, every ordering explored by forking:
@@ -29,9 +31,9 @@ How the hull claim is turned into decidable obligations (all through the public 
              ordered by construction): obj.bbox is exactly (min, max) of the control point coordinates, and for every
              coordinate d   C_d(u) - min_d == sum_i lambda_i (P_i[d] - min_d),  lambda_i >= 0,  P_i[d] - min_d >= 0
              (same for max_d - C_d(u)); in addition the end-to-end obligation min_d <= C_d(u) <= max_d is given to the
-             solver directly for non-rational curves and surfaces (trilinear volumes and rational shapes: the solver
-             does not decide it within the budget, the decomposition above stands), and every point of obj.evalpts
-             is checked against obj.bbox.
+             solver directly for curves and surfaces, rational ones included (trilinear volumes: the solver does not
+             decide it within the budget, the decomposition above stands), and every point of obj.evalpts (5 / 3x3 /
+             2x3x2 samples) is checked against obj.bbox.
   length     operations.length_curve of a non-rational clamped curve with 3-4 samples: the result equals the polyline
              length of evalpts and is >= |evalpts[-1] - evalpts[0]| = |P[-1] - P[0]|.  Segment lengths are sqrt atoms
              (A4).  net='sym': one symbolic coordinate per control point; the bound is established through the chain
@@ -73,7 +75,7 @@ def _nonneg(ctx, label, q):
     if ctx.mode == 'sym':
         ctx.check(label, ctx.sign_free_le(0, q), nonlinear=not ctx.is_const(q))
     else:
-        ctx.check(label, q >= -1e-12)
+        ctx.check(label, q >= -ctx.RTOL)
 
 
 def _combine(lams, pts, dim):
@@ -91,7 +93,7 @@ def _hull_curve_shapes(tier):
             for mult in shapes.compositions(k, p):
                 out.append(dict(p=p, mult=list(mult), rational=False, signs=p <= 3))
     for p, mult in ((1, [1]), (2, []), (2, [1]), (2, [2]), (3, [1])):
-        out.append(dict(p=p, mult=mult, rational=True, signs=p <= 2))
+        out.append(dict(p=p, mult=mult, rational=True, signs=p <= 3))
     if tier == 'thorough':
         out.append(dict(p=3, mult=[1, 1], rational=True, signs=False))
         out.append(dict(p=5, mult=[2], rational=False, signs=False))
@@ -130,6 +132,7 @@ def hull_curve(ctx, p, mult, rational, signs):
                 # lambda = B_i w_i / W(u) with w_i > 0 (precondition) and W(u) > 0 (lemma): the sign is the sign of B_i
                 _nonneg(ctx, 'lambda[%d]>=0.basis' % k, row[idx[k]])
                 _nonneg(ctx, 'lambda[%d]>=0.weight' % k, W[idx[k]])
+                _nonneg(ctx, 'lambda[%d]>=0' % k, l)
             else:
                 _nonneg(ctx, 'lambda[%d]>=0' % k, l)
 
@@ -470,19 +473,36 @@ def inside_bbox(ctx, kind, deg, sizes, rational, perm):
         for k, p in enumerate(pts):
             ctx.check('active[%d][%d]-min>=0' % (k, d), ctx.le(bb[0][d], p[d]))
             ctx.check('max-active[%d][%d]>=0' % (k, d), ctx.le(p[d], bb[1][d]))
-        if not rational and nd <= 2:
+        if nd <= 2:
             _nonneg(ctx, 'inside.C[%d]>=min' % d, got[d] - bb[0][d])
             _nonneg(ctx, 'inside.C[%d]<=max' % d, bb[1][d] - got[d])
-    # sampled grid: concrete parameters, linear obligations
-    if not rational:
-        if kind == 'curve':
-            obj.sample_size = 5
-        elif kind == 'surface':
-            obj.sample_size_u, obj.sample_size_v = 3, 3
-        else:
-            obj.sample_size_u, obj.sample_size_v, obj.sample_size_w = 2, 3, 2
-        for k, pt in enumerate(obj.evalpts):
-            for d in range(dim):
+    # sampled grid: concrete parameters (non-rational: linear obligations)
+    if kind == 'curve':
+        obj.sample_size = 5
+        grid = [[F(i, 4)] for i in range(5)]
+    elif kind == 'surface':
+        obj.sample_size_u, obj.sample_size_v = 3, 3
+        grid = [[F(i, 2), F(j, 2)] for i in range(3) for j in range(3)]
+    else:
+        obj.sample_size_u, obj.sample_size_v, obj.sample_size_w = 2, 3, 2
+        grid = [[F(i), F(j, 2), F(k)] for i in range(2) for j in range(3) for k in range(2)]
+    if rational:
+        wnet = [[w] for w in W]
+        for g in grid:
+            g = [ctx.lit(x) for x in g]
+            if kind == 'curve':
+                wv = spec.curve_point(deg[0], kvs[0], wnet, g[0])[0]
+            else:
+                wv = spec.surface_point(deg[0], deg[1], kvs[0], kvs[1], wnet, sizes[0], sizes[1], g[0], g[1])[0]
+            ctx.assume_pos(wv, 'L.weight_function_positive')
+    pts_ = obj.evalpts
+    ctx.check_true('evalpts.count', len(pts_) == len(grid))
+    for k, pt in enumerate(pts_):
+        for d in range(dim):
+            if rational:
+                _nonneg(ctx, 'evalpts[%d][%d]>=bbox.min' % (k, d), pt[d] - bb[0][d])
+                _nonneg(ctx, 'evalpts[%d][%d]<=bbox.max' % (k, d), bb[1][d] - pt[d])
+            else:
                 ctx.check('evalpts[%d][%d].inside_bbox' % (k, d), ctx.all(ctx.le(bb[0][d], pt[d]), ctx.le(pt[d], bb[1][d])))
 
 
@@ -505,11 +525,12 @@ def _lattice_polygon(n):
 
 def _length_shapes(tier):
     out = [dict(p=1, n=2, samples=3, net='sym'), dict(p=1, n=3, samples=3, net='sym'), dict(p=2, n=3, samples=3, net='sym'),
-           dict(p=2, n=3, samples=4, net='sym'), dict(p=3, n=4, samples=3, net='sym'),
+           dict(p=1, n=3, samples=5, net='sym'), dict(p=3, n=4, samples=3, net='sym'),
            dict(p=1, n=3, samples=3, net='lattice'), dict(p=1, n=4, samples=4, net='lattice'), dict(p=1, n=5, samples=5, net='lattice'),
            dict(p=2, n=4, samples=4, net='lattice'), dict(p=3, n=5, samples=4, net='lattice')]
     if tier == 'thorough':
-        out += [dict(p=2, n=4, samples=4, net='sym'), dict(p=1, n=6, samples=6, net='lattice')]
+        out += [dict(p=2, n=3, samples=4, net='sym'), dict(p=1, n=4, samples=4, net='sym'), dict(p=2, n=4, samples=3, net='sym'),
+                dict(p=1, n=6, samples=6, net='lattice')]
     return out
 
 
